@@ -31,6 +31,10 @@ Definition taint_ok (f : fixes) (t : taints) : Prop :=
   (fx08 f = true -> t08 t = false) /\ (fx12 f = true -> t12 t = false) /\
   (fx33 f = true -> t33 t = false).
 
+(* the handle a live future borrows: alive, async, and of the future's side *)
+Definition hok (recv : bool) (h : handle) : Prop :=
+  h_live h = true /\ h_tx h = negb recv /\ h_async h = true.
+
 (** * the invariant *)
 (* data part, with the ids currently "in the caller's hand" (taken by [fresh], not yet placed) *)
 Record InvD (hand : list N) (s : st) : Prop := {
@@ -52,7 +56,7 @@ Record InvW (s : st) : Prop := {
   w_wq : forall f x, getF f s = Some x -> f_reg x = true -> is_waiting (f_state x) = true ->
                      In f (akeys (if f_recv x then arq s else asq s));
   w_fh : forall f x, getF f s = Some x -> f_live x = true ->
-                     exists h, getH (f_h x) s = Some h /\ h_live h = true;
+                     exists h, getH (f_h x) s = Some h /\ hok (f_recv x) h;
   (* once a side's count is 0 every parked waiter of the other side has been CLOSED-woken *)
   w_sc0 : sc s = 0 -> forall f w x, In (f, w) (arq s) -> getF f s = Some x -> is_waiting (f_state x) = false;
   w_rc0 : rc s = 0 -> forall f w x, In (f, w) (asq s) -> getF f s = Some x -> is_waiting (f_state x) = false;
@@ -249,7 +253,7 @@ Proof.
       + specialize (w_wq0 f1 y Hy Hreg Hwy). destruct (f_recv y); [|exact w_wq0].
         apply unlink_keys. auto.
     - intros f1 y Hy Hl. change (getF f1 (setF f x' s) = Some y) in Hy.
-      change (exists h, getH (f_h y) s = Some h /\ h_live h = true). getF_cases Hy.
+      change (exists h, getH (f_h y) s = Some h /\ hok (f_recv y) h). getF_cases Hy.
       + apply (w_fh0 f x Hg). exact Hl.
       + eapply w_fh0; eauto.
     - intros Hsc f1 w1 y Hi Hy. apply unlink_In in Hi. destruct Hi as [Hi Hne]. cbn [fst] in Hne.
@@ -346,7 +350,7 @@ Proof.
       + specialize (w_wq0 f1 y Hy Hrg Hwy). destruct (f_recv y); [exact w_wq0|].
         destruct keep; [exact w_wq0 | apply unlink_keys; auto].
     - intros f1 y Hy Hl. change (getF f1 (setF f x' s) = Some y) in Hy.
-      change (exists h, getH (f_h y) s = Some h /\ h_live h = true). getF_cases Hy.
+      change (exists h, getH (f_h y) s = Some h /\ hok (f_recv y) h). getF_cases Hy.
       + apply (w_fh0 f x Hg). exact Hl.
       + eapply w_fh0; eauto.
     - intros Hsc f1 w1 y Hi Hy. change (getF f1 (setF f x' s) = Some y) in Hy.
@@ -637,7 +641,7 @@ Proof.
       + discriminate.
       + exact (w_wq0 f1 y Hy Hrg Hwy).
     - intros f1 y Hy Hl. change (getF f1 (setF f x' s) = Some y) in Hy.
-      change (exists h, getH (f_h y) s = Some h /\ h_live h = true). getF_cases Hy.
+      change (exists h, getH (f_h y) s = Some h /\ hok (f_recv y) h). getF_cases Hy.
       + apply (w_fh0 f x Hg). exact Hl.
       + eapply w_fh0; eauto.
     - intros Hsc f1 w1 y Hi Hy. change (getF f1 (setF f x' s) = Some y) in Hy.
@@ -782,7 +786,7 @@ Lemma InvH_handles hand hs' sc' rc' fr' s :
   InvH hand s ->
   NoDup (akeys hs') ->
   (forall f x, getF f s = Some x -> f_live x = true ->
-               exists h, aget (f_h x) hs' = Some h /\ h_live h = true) ->
+               exists h, aget (f_h x) hs' = Some h /\ hok (f_recv x) h) ->
   (sc' = 0 -> forall f w x, In (f, w) (arq s) -> getF f s = Some x -> is_waiting (f_state x) = false) ->
   (rc' = 0 -> forall f w x, In (f, w) (asq s) -> getF f s = Some x -> is_waiting (f_state x) = false) ->
   fr' = negb (existsb (fun e => h_live (snd e)) hs') ->
@@ -874,8 +878,8 @@ Proof.
     + rewrite Er. apply Hwq; assumption.
     + specialize (w_wq0 f1 y Hy Hrg Hwy). destruct (f_recv y); [apply Hk1 | apply Hk2]; assumption.
   - intros f1 y Hy Hl. change (getF f1 (setF f x' s) = Some y) in Hy.
-    change (exists h, getH (f_h y) s = Some h /\ h_live h = true). getF_cases Hy.
-    + rewrite Eh. apply (w_fh0 f x Hg). apply El. exact Hl.
+    change (exists h, getH (f_h y) s = Some h /\ hok (f_recv y) h). getF_cases Hy.
+    + rewrite Eh, Er. apply (w_fh0 f x Hg). apply El. exact Hl.
     + eapply w_fh0; eauto.
   - intros Hsc f1 w1 y Hi Hy. change (getF f1 (setF f x' s) = Some y) in Hy. getF_cases Hy.
     + apply Hs0; [exact Hsc | eapply In_akeys; exact Hi].
